@@ -29,7 +29,11 @@ EXPLANATION = (
     "decided: that B's state is unchanged in every history (behavioural). R6.4: in the three source-zone functions the "
     "tests that choose the destination zone (looked through predicate helpers) depend on the routing state - the route "
     "table or an interface resolved through ARP/route lookup - because the zone whose inbound list applies is the port "
-    "the frame leaves by; the arithmetic of the route lookup itself is not decided."
+    "the frame leaves by; a predicate helper that makes the choice (`_leaves_by_<zone>_port`) is evaluated as a truth table "
+    "over its membership atoms (any further atom must not change the answer); the arithmetic of the route lookup itself is not "
+    "decided. R6.5 = C07's rules R7.1/R7.2/R7.5 (first-match scan, field-by-field matcher, wildcard per-bit table) and R6.6 = "
+    "C12's R12.1/R12.2 (power-state writers, interfaces disabled when leaving ON, enable gated on ON) applied here: a deny rule "
+    "blocks only if the matcher matches and the scan stops there, a powered-off device is silent only if its interfaces stay down."
 )
 TECHNIQUE = "static: CFG must-pass (verdict before effect) per filter function, zone call-graph check, who-may-call inventories, module layering check"
 ASSUMPTIONS = ["no monkey-patching of interface/node classes", "class-hierarchy analysis over-approximates dispatch"]
@@ -426,7 +430,102 @@ def r6_3(ctx: Ctx) -> None:
                f"returns {unparse(rets[0].value) if rets else '?'}")
 
 
+def r6_4_helper_table(ctx: Ctx) -> None:
+    """If the zone choice is delegated to a predicate (`_leaves_by_<zone>_port(dst)`), the predicate is evaluated as a truth table
+    over its membership atoms: it must answer True exactly when dst is on that port's subnet, or on none of the firewall's own
+    subnets and routed via a next hop on that port's subnet - whatever any other atom (e.g. 'is the default route') says."""
+    ix = ctx.ix
+    fw = ix.cls("Firewall")
+    import itertools
+    from ..absval import UNKNOWN, Evaluator, walk
+    for name, h in sorted(fw.methods.items()):
+        m = re.fullmatch(r"_leaves_by_(\w+)_port", name)
+        if not m or isinstance(h.node, ast.Lambda):
+            continue
+        zone = m.group(1)
+        params = [a.arg for a in h.node.args.args[1:]]
+        if len(params) != 1:
+            raise AnalysisError(f"R6.4: {h.short} no longer takes the destination address only")
+        d = params[0]
+        g = CFG(h.node)
+        ld = LocalDefs(h.node)
+        # atoms: every condition node and every boolean operand of the return expressions
+        atoms: Dict[str, ast.AST] = {}
+
+        def collect(e: ast.AST) -> None:
+            if isinstance(e, ast.BoolOp):
+                for v in e.values:
+                    collect(v)
+            elif isinstance(e, ast.UnaryOp) and isinstance(e.op, ast.Not):
+                collect(e.operand)
+            elif not isinstance(e, ast.Constant):
+                atoms.setdefault(unparse(e), e)
+
+        for n in g.nodes:
+            if n.kind == "cond" and n.ast is not None:
+                collect(n.ast)
+            if n.kind == "stmt" and isinstance(n.ast, ast.Return) and n.ast.value is not None:
+                collect(ld.expand(n.ast.value))
+        route_var = next((nm for nm, ds in ld.defs.items() if any(isinstance(v, ast.Call) and call_name(v) == "find_best_route" for v, _, _ in ds)), None)
+        if route_var is None:
+            raise AnalysisError(f"R6.4: {h.short} does not look the destination up in the route table")
+
+        def role(t: str) -> Optional[str]:
+            mm = re.fullmatch(rf"{re.escape(d)} in self\.(\w+)_port\.ip_network", t)
+            if mm:
+                return "dst_in_" + mm.group(1)
+            mm = re.fullmatch(rf"{re.escape(route_var)}\.next_hop_ip_address in self\.(\w+)_port\.ip_network", t)
+            if mm:
+                return "hop_in_" + mm.group(1)
+            if t in (route_var, f"{route_var} is not None", f"{route_var} is None"):
+                return "route"
+            return None
+
+        names = sorted(atoms)
+        free = [t for t in names if role(t) is None]
+        bad: List[str] = []
+        n_rows = 0
+        for vals in itertools.product((False, True), repeat=len(names)):
+            env = dict(zip(names, vals))
+            r = {role(t): (v if t != f"{route_var} is None" else not v) for t, v in env.items() if role(t)}
+            # consistency: dst is on at most one subnet; no next hop without a route
+            if sum(1 for k, v in r.items() if k.startswith("dst_in_") and v) > 1:
+                continue
+            if not r.get("route", True) and any(v for k, v in r.items() if k.startswith("hop_in_")):
+                continue
+            if sum(1 for k, v in r.items() if k.startswith("hop_in_") and v) > 1:
+                continue
+            ev = Evaluator(env, None)
+            outcome, node, _ = walk(g, ev, track_assign=False)
+            if outcome != "return":
+                raise AnalysisError(f"R6.4: cannot evaluate {h.short} ({outcome})")
+            got = ev.ev(ld.expand(node.ast.value))
+            if got is UNKNOWN:
+                raise AnalysisError(f"R6.4: cannot evaluate `{unparse(node.ast.value)[:60]}` in {h.short}")
+            on_own = any(v for k, v in r.items() if k.startswith("dst_in_"))
+            want = bool(r.get(f"dst_in_{zone}")) or (not on_own and bool(r.get("route", False)) and bool(r.get(f"hop_in_{zone}")))
+            n_rows += 1
+            if bool(got) != want:
+                bad.append(", ".join(f"{t}={v}" for t, v in env.items()) + f": answers {bool(got)}, the frame "
+                           + ("leaves" if want else "does not leave") + f" by the {zone} port")
+        ctx.record("R6.4", ctx.key(h, f"true exactly when the frame leaves by the {zone} port"), h.loc(), not bad,
+                   f"{n_rows} consistent rows over atoms {names}" + (f" (free atoms {free} do not change the answer)" if free else "")
+                   if not bad else f"the predicate that selects the {zone} zone is wrong for some destinations", bad[:6])
+
+
 def check(ctx: Ctx) -> None:
     r6_1(ctx)
+    r6_4_helper_table(ctx)
     r6_2(ctx)
     r6_3(ctx)
+    # a deny rule blocks only if the matcher says it matches and the scan stops at it, and a powered-off device is silent only
+    # if its interfaces cannot come up: the matcher / scan rules of C07 and the interface gate of C12 are necessary here too
+    from . import c07, c12
+    with ctx.borrowed({"R7.1": "R6.5", "R7.2": "R6.5", "R7.5": "R6.5"}):
+        c07.r7_5(ctx)
+        c07.r7_1(ctx)
+        c07.r7_2(ctx)
+    uni = set(ctx.ix.enum_members(ctx.ix.cls("NodeOperatingState")))
+    with ctx.borrowed({"R12.1": "R6.6", "R12.2": "R6.6"}):
+        flows = c12.r12_1(ctx, uni)
+        c12.r12_2(ctx, uni, flows)
